@@ -136,6 +136,7 @@ type Layout struct {
 	BlankAfterPkg  int
 	ImportComment  string // comment line between imports
 	ModsOwnLine    bool // modifiers on the line before the type
+	BeforeParen    string // text between a declared method's name and its parameter list ("", " ", " /* c */ ")
 }
 
 func DefaultLayout() Layout { return Layout{Indent: "    ", BlankAfterPkg: 1} }
@@ -329,7 +330,7 @@ func printMethod(p *printer, m *Method, l Layout, ind string) {
 		p.w(m.Ret + " ")
 	}
 	m.NamePos = p.pos()
-	p.w(m.Name + "(")
+	p.w(m.Name + l.BeforeParen + "(")
 	for i, pa := range m.Params {
 		if i > 0 {
 			p.w(", ")
